@@ -18,8 +18,8 @@ Local Open Scope Z_scope.
 (** Guarded statement (what holds of the code at HEAD).  For EVERY write history [hist] (any number of
     WriteCSM requests, any rows in any order, many per interval, any intervals and years 1970..9999) to a
     variable-length bucket of timeframe [tf] with [plen] payload bytes per record, and every table
-    [clen] of stored block lengths, inside [guard_C09] (no F2/F3 input, queryable timeframe, codec within
-    C10's bound; the former classes F4 and F1 are fixed in /repo and no longer guarded):
+    [clen] of stored block lengths, inside [guard_C09] (no F2/F3 input, codec within C10's bound; the former
+    classes F4, F1 and 4H-looked-up-as-2H are fixed in /repo and no longer guarded):
     the query over all time succeeds and returns the rows R = the records of the final file state in
     (year, slot, tick) order, where
       - R is a PERMUTATION of the written records, each quantised by the tick codec (every record exactly
@@ -78,8 +78,8 @@ Print Assumptions C09_read_all.
 
 (* ------------------------------------------------------------------------------------------ *)
 (** Full statement (the property as given): the same for every history of well-formed rows in every
-    on-disk timeframe, without the guard.  Refuted by three replayed witnesses, one per open class
-    (F4 and F1 are fixed: their witnesses are regression examples below). *)
+    on-disk timeframe, without the guard.  Refuted by two replayed witnesses, one per open class
+    (F4, F1 and the 4H lookup are fixed: their witnesses are regression examples below). *)
 Definition C09_full : Prop := forall tf plen clen hist,
   is_tf tf = true -> forallb (row_ok plen) (all_rows hist) = true ->
   let R := var_rows_all (final_bucket enc dec tf plen clen hist) in
@@ -132,16 +132,12 @@ Proof.
 Qed.
 Print Assumptions C09_refuted_F3.
 
-(** class timeframe-4H-looked-up-as-2H: QueryableTimeframe returns the LAST entry of utils.Timeframes
-    dividing the duration, and the table lists 4H before 2H: a 4H bucket cannot be queried.
+(** former witness of class timeframe-4H-looked-up-as-2H (fixed in /repo d275195: utils.Timeframes lists 4H
+    after 2H, QueryableTimeframe answers 4H with 4H): a 4H bucket is queryable.
     (corpus/C09/tf_4H_not_queryable.json) *)
 Definition w_4H : list (list wrow) := [ [mkW 1583064000 0 (i32le 9)] ].
-Theorem C09_refuted_4H : ~ C09_full.
-Proof.
-  intros H. destruct (H 14400000000000 4 (fun _ => 1000) w_4H eq_refl eq_refl) as (Q & _).
-  vm_compute in Q. discriminate Q.
-Qed.
-Print Assumptions C09_refuted_4H.
+Example C09_former_4H : guard_C09 enc dec 14400000000000 4 (fun _ => 20) w_4H = true.
+Proof. vm_compute. reflexivity. Qed.
 
 (* ------------------------------------------------------------------------------------------ *)
 (** Non-vacuity: a history of three requests — unsorted input, several records per interval, two years,
